@@ -296,6 +296,33 @@ func parseRaceLogs(prefix string) (blocks int, distinct map[string]int, first st
 	return
 }
 
+// c18Panics collects panics raised inside the concurrent calls (a runtime
+// error there is the visible end of a race on shared state); they are
+// reported as violations after the goroutines have been joined.
+var (
+	c18PanicMu sync.Mutex
+	c18Panics  []string
+)
+
+func c18Recover(phase string) {
+	if p := recover(); p != nil {
+		c18PanicMu.Lock()
+		if len(c18Panics) < 20 {
+			c18Panics = append(c18Panics, phase+": "+fmt.Sprint(p))
+		}
+		c18PanicMu.Unlock()
+	}
+}
+
+func c18ReportPanics(t *mon.T) {
+	c18PanicMu.Lock()
+	defer c18PanicMu.Unlock()
+	for _, p := range c18Panics {
+		t.Fail("panic-in-concurrent-call", map[string]interface{}{"panic": p})
+	}
+	c18Panics = nil
+}
+
 func runC18(r *mon.Run) {
 	r.Rule = "a cold-start phase (16 goroutines do the same first-touch work - growing field widths, big powers of ten, logarithm constants, condition texts - as the first use of the package in the process), then rounds of G goroutines (G in {4,16,64}, GOMAXPROCS in {2,16}) released by a barrier; all share 3 Contexts and a pool of ~70 operand " +
 		"Decimals (inline <=64-bit, inline 65..128-bit, heap-backed, heap-backed-but-small, far-apart exponents that need powers of ten beyond " +
@@ -365,6 +392,20 @@ func runC18(r *mon.Run) {
 				out = append(out, c.String()+fmt.Sprint(err))
 			}
 			out = append(out, fmt.Sprint(long.NumDigits()), long.String(), long.Text('f'))
+			// read-only methods with optional outputs left out, on shared operands
+			for it := 0; it < 40; it++ {
+				for _, v := range []*apd.Decimal{vals[0], vals[1], long} {
+					var ip, fp apd.Decimal
+					v.Modf(nil, &fp)
+					v.Modf(&ip, nil)
+					v.Modf(nil, nil)
+					var e apd.Decimal
+					e.Reduce(v)
+					i64, err := v.Int64()
+					f64, err2 := v.Float64()
+					out = append(out, fmt.Sprint(fp.String(), ip.String(), e.String(), i64, err != nil, f64, err2 != nil, v.Cmp(long), v.CmpTotal(vals[0])))
+				}
+			}
 			return out
 		}
 		const G = 16
@@ -374,6 +415,7 @@ func runC18(r *mon.Run) {
 		for g := 0; g < G; g++ {
 			wg.Add(1)
 			go func(g int) {
+				defer c18Recover("phase 1")
 				defer wg.Done()
 				<-barrier
 				outs[g] = work()
@@ -381,6 +423,7 @@ func runC18(r *mon.Run) {
 		}
 		close(barrier)
 		wg.Wait()
+		c18ReportPanics(t)
 		want := work()
 		for g := range outs {
 			for i := range want {
@@ -432,6 +475,7 @@ func runC18(r *mon.Run) {
 			for g := 0; g < G; g++ {
 				wg.Add(1)
 				go func(g int) {
+					defer c18Recover("phase 2")
 					defer wg.Done()
 					gr := rng.New(r.Seed, fmt.Sprintf("c18-sched-%d", round), int64(g))
 					<-barrier
@@ -471,6 +515,7 @@ func runC18(r *mon.Run) {
 			}
 			close(barrier)
 			wg.Wait()
+			c18ReportPanics(t)
 			// quiescent point: nothing shared may have changed
 			for i := range pool {
 				if got := reprOf(pool[i]); got != poolRepr[i] {
@@ -624,6 +669,7 @@ func runC18(r *mon.Run) {
 			for g := 0; g < G; g++ {
 				wg.Add(1)
 				go func(g int) {
+					defer c18Recover("phase 3")
 					defer wg.Done()
 					gr := rng.New(r.Seed, fmt.Sprintf("c18-pressure-%d", round), int64(g))
 					<-barrier
@@ -638,6 +684,7 @@ func runC18(r *mon.Run) {
 			}
 			close(barrier)
 			wg.Wait()
+			c18ReportPanics(t)
 			for g := range recs {
 				for _, rc := range recs[g] {
 					atomic.AddInt64(&pressureCalls, 1)
@@ -661,6 +708,7 @@ func runC18(r *mon.Run) {
 				for g := 0; g < G2; g++ {
 					wg2.Add(1)
 					go func(g int) {
+						defer c18Recover("phase 4")
 						defer wg2.Done()
 						gr := rng.New(r.Seed, fmt.Sprintf("c18-storm-%d", round), int64(g))
 						<-barrier2
@@ -678,6 +726,7 @@ func runC18(r *mon.Run) {
 				}
 				close(barrier2)
 				wg2.Wait()
+				c18ReportPanics(t)
 				want := make([]string, len(hp))
 				for j := range hp {
 					var d apd.Decimal
